@@ -352,7 +352,52 @@ class CheckerOnMutants(NativeCase):
             self.ob('distinguishable=>not-equal', not eq,
                     inputs=dict(block=a, mutant=b, kind='reordered-operations',
                                 witness=dict(stack=[hex(x) for x in witness[0]], seed=witness[1], why=witness[2])))
+        # the gate the tool itself uses (compare_asm_block_asm_format) on pairs that differ in an instruction at which blocks are
+        # split: those instructions belong to no specification (finding F34)
+        for a, b, o in SPLIT_PAIRS:
+            ia, ib = corpus.tokens(a), corpus.tokens(b)
+            d2 = max(utils.compute_stack_size(plain_names(ia)), utils.compute_stack_size(plain_names(ib)))
+            try:
+                witness = evmexec.distinguishable(block_items(ia), block_items(ib), d2, n=n_states)
+            except KeyError:
+                continue
+            if witness is None:
+                continue
+            try:
+                eq, reason = gate_verdict(ia, ib, o)
+            except BaseException as e:
+                self.ob('never-raises', False, inputs=dict(block=a, mutant=b, kind='split-instruction', opts=o), info=repr(e))
+                continue
+            self.ob('distinguishable=>not-equal', not eq,
+                    inputs=dict(block=a, mutant=b, kind='split-instruction', opts=o,
+                                witness=dict(stack=[hex(x) for x in witness[0]], seed=witness[1], why=witness[2])))
         cleanup_tmp()
+
+
+def gate_verdict(instrs_a, instrs_b, opts=()):
+    """compare_asm_block_asm_format on two blocks given as token lists"""
+    from . import pipeline
+    import gasol_asm as ga
+    import sfs_generator.parser_asm as parser_asm
+    pipeline.reset_sticky_globals()
+    params = pipeline.make_params(['x.txt', '-bl', '-greedy'] + list(opts))
+    if params.split_storage:
+        ga.constants.append_store_instructions_to_split()
+    try:
+        ba = parser_asm.parse_blocks_from_plain_instructions(pipeline.plain_text(instrs_a))[0]
+        bb = parser_asm.parse_blocks_from_plain_instructions(pipeline.plain_text(instrs_b))[0]
+        import io, contextlib
+        with contextlib.redirect_stdout(io.StringIO()), contextlib.redirect_stderr(io.StringIO()):
+            return ga.compare_asm_block_asm_format(ba, bb, params)
+    finally:
+        pipeline.reset_sticky_globals()
+
+
+SPLIT_PAIRS = [("PUSH 20 PUSH 0 PUSH 0 CALLDATACOPY", "PUSH 20 PUSH 0 PUSH 0 CODECOPY", []),
+               ("PUSH 20 PUSH 0 PUSH 0 CALLDATACOPY", "PUSH 20 PUSH 0 PUSH 0 RETURNDATACOPY", []),
+               ("CALL", "CALLCODE", []), ("DELEGATECALL", "STATICCALL", []), ("DUP1 DUP3 LOG1 ADD", "DUP1 DUP3 CALLDATACOPY ADD", []),
+               ("PUSH 1 PUSH 2 SSTORE PUSH 3", "PUSH 1 PUSH 2 MSTORE PUSH 3", ["-storage"]),
+               ("DUP2 DUP2 LOG0 ADD", "DUP2 DUP2 LOG0 ADD", [])]
 
 
 _SHUFFLE = "SWAP2 SWAP1 SWAP3 SWAP1"        # (a b c d) -> (c d a b)
